@@ -213,6 +213,6 @@ class ActNorm(Transform):
         with torch.no_grad():
             std = inputs.std(dim=0)
             mu = (inputs / std).mean(dim=0)
-            self.log_scale.data = -torch.log(std)
-            self.shift.data = -mu
+            self.log_scale.data = (-torch.log(std)).to(self.log_scale.dtype)
+            self.shift.data = (-mu).to(self.shift.dtype)
             self.initialized.data = torch.tensor(True, dtype=torch.bool)
